@@ -12,6 +12,7 @@ inductive Ev
   | register (flag : Bool)
   | connected (flag : Bool)
   | disconnected (flag : Bool)
+  | connectCall      -- Connect is about to be called (not for a Connect on a connected client: see againOk / againRefused)
   | connectOk
   | connectErr
   | againOk          -- Connect while connected returned nil
@@ -29,6 +30,8 @@ structure Acc where
   regs : Nat := 0        -- REGISTER dispatches
   oks : Nat := 0         -- successful Connect returns
   discs : Nat := 0       -- DISCONNECTED dispatches
+  calls : Nat := 0       -- Connect calls issued
+  errs : Nat := 0        -- Connect calls that returned an error
   causeInGen : Bool := false   -- a cause was injected since the last REGISTER
   ok : Bool := true
 
@@ -36,7 +39,13 @@ def stepAcc (a : Acc) : Ev → Acc
   | .register f => { a with regs := a.regs + 1, causeInGen := false, ok := a.ok && f && a.regs == a.oks }
   | .connectOk => { a with oks := a.oks + 1, ok := a.ok && a.regs == a.oks + 1 }
   | .connected f => { a with ok := a.ok && (f || a.causeInGen) }
-  | .disconnected f => { a with discs := a.discs + 1, ok := a.ok && !f && a.discs < a.regs }
+  | .connectCall => { a with calls := a.calls + 1 }
+  | .connectErr => { a with errs := a.errs + 1 }
+  -- `Connected()` is false in a DISCONNECTED handler - unless the client has been connected again meanwhile: a
+  -- newer connection's REGISTER is already in the history, or a Connect call is in flight (it sets the flag
+  -- before it dispatches REGISTER). This is `Props.C06.disconnected_flag`: flag = true only if a later Connect succeeded.
+  | .disconnected f => { a with discs := a.discs + 1,
+                                ok := a.ok && (!f || a.discs + 1 < a.regs || a.regs + a.errs < a.calls) && a.discs < a.regs }
   | .cause => { a with causeInGen := true }
   | .againOk => { a with ok := false }
   | .dead => { a with ok := false }
